@@ -6,6 +6,7 @@
 # tier of the given checks against the patched copy. Prints one summary line per fact.
 set -u
 export GOFLAGS=-mod=mod GOPROXY=off GOSUMDB=off GOTOOLCHAIN=local
+VD=$(cd "$(dirname "$0")/.." && pwd)
 patch=$(readlink -f "$1"); demo=$(readlink -f "$2"); dest=$3; dargs=$4; shift 4
 tier=${SEED_TIER:-quick}
 scratch=$(mktemp -d /tmp/verif-seedeval.XXXXXX); trap 'rm -rf "$scratch"' EXIT
@@ -20,8 +21,8 @@ if (cd "$scratch/patched" && go test -vet=off -count=1 $dargs >"$scratch/demo-p.
 if (cd "$scratch/clean" && go test -vet=off -count=1 $dargs >"$scratch/demo-c.log" 2>&1); then echo "DEMO-WITHOUT-PATCH: passes (expected)"; else echo "DEMO-WITHOUT-PATCH: FAILS (UNEXPECTED)"; tail -5 "$scratch/demo-c.log"; fi
 rm -f "$scratch/patched/$dest/$(basename "$demo")"
 for id in "$@"; do
-  out=$(cd /verif && ./check "$id" "$tier" --repo "$scratch/patched" 2>&1); code=$?
+  out=$(cd "$VD" && ./check "$id" "$tier" --repo "$scratch/patched" 2>&1); code=$?
   if [ $code -eq 1 ]; then echo "CHECK $id $tier: CAUGHT — $(grep -m1 -A1 '^VIOLATION' <<<"$out" | tail -1 | sed 's/^ *//' | cut -c1-160)";
   else echo "CHECK $id $tier: not caught (exit $code)"; fi
 done
-rm -rf /verif/.cache/selftest-replay
+rm -rf "$VD/.cache/selftest-replay"
